@@ -16,7 +16,7 @@ func init() {
 		rule{name: "S-stackfx", run: ruleSStackFx},
 		rule{name: "T-truth", run: ruleTTruth},
 		rule{name: "T-arith", run: ruleTArith},
-		rule{name: "T-hash", run: ruleTHash}, rule{name: "T-shift", run: ruleTShift}, rule{name: "T-nop", run: ruleTNop}, rule{name: "T-min", run: ruleTMin}, rule{name: "T-pushonly", run: ruleTPushOnly},
+		rule{name: "T-hash", run: ruleTHash}, rule{name: "T-shift", run: ruleTShift}, rule{name: "T-nop", run: ruleTNop}, rule{name: "T-min", run: ruleTMin}, rule{name: "T-pushonly", run: ruleTPushOnly}, rule{name: "T-end", run: ruleTEnd},
 	)
 	register("C18",
 		"Lock discipline of the documented thread-safe types decided for every schedule by a lockset analysis (L-fee: every read/write of FeeQuotes.quotes, FeeQuote.fees, FeeQuote.expiryTime happens with the struct's RWMutex held in a sufficient mode; L-pair: acquire/release kinds pair on every path; L-order: acquisition order acyclic; L-escape: no guarded map handed out by reference). Verdict equality of concurrent vs sequential Execute is decided only through its structural cause: O-glob shows no function reachable from Engine.Execute writes package-level state.",
